@@ -1,0 +1,15 @@
+//go:build !verif
+
+package goja
+
+// Verification hooks (see verif_on.go): compiled to nothing without the "verif" build tag.
+
+func (vm *vm) vt(ev, a string)                          {}
+func (vm *vm) vtTryPush(catchPos, finallyPos int32)     {}
+func (vm *vm) vtAsync(ev string)                        {}
+func (vm *vm) vtSeg(ev string, ts, is, rs, st int)      {}
+func (r *Runtime) vtJob(ev string, id uint64, a string) {}
+
+func verifThrowClass(arg interface{}, ex *Exception) string { return "" }
+func verifFinallyKind(exc bool, ret int32) string           { return "" }
+func verifOutcome(err error) string                         { return "" }
